@@ -260,6 +260,61 @@ def s4_hold(ctx, rid, fx, cls, fsm_info, outputs):
     return n
 
 
+def s4_hold_flags(ctx, rid, fx, cls, fsm_info, outputs):
+    """In-state form of hold-until-ready: where an outgoing valid `v` is a function of registers (done flags, skid flags), every
+    update of such a register made in a state that drives `v` either keeps `v` asserted or happens under `ready_v`:
+        state S & G_update & F_v  =>  ready_v | F_v[r := new value]."""
+    n = 0
+    for st in fsm_info.states:
+        for vp, rp in outputs:
+            drv = [a for a in fx.find(domain="comb", target=vp) if a.state == (fsm_info.id, st)]
+            if not drv:
+                continue
+            inl = q.Inliner(fx, drv[0])
+            Fv = inl.formula_of_path(vp)
+            if Fv is None:
+                continue
+            regs = {}
+            for a in fx.find(domain="sync"):
+                if a.state == (fsm_info.id, st) and a.t in B.atoms(Fv) and a.v in ("0", "1"):
+                    regs.setdefault(a.t, []).append(a)
+            for r, asg in sorted(regs.items()):
+                for a in asg:
+                    G = q.Inliner(fx, a).gformula(a)
+                    after = B.subst(Fv, {r: B.T if a.v == "1" else B.F})
+                    need = B.Or(B.A(rp), after)
+                    ok = B.entails(B.And(G, Fv), need)
+                    n += 1
+                    ctx.ob(rid, fx.rel, cls, f"{st}: {r} <= {a.v} keeps {vp} until {rp}", ok,
+                           "" if ok else f"in state {st} `{r} <= {a.v}` under {short(B.show(G))} turns `{vp}` = {short(B.show(Fv), 50)} off in a "
+                                         f"cycle without `{rp}`: the request is withdrawn before it was accepted (or a done flag is set by another "
+                                         f"channel's handshake); e.g. {B.counterexample(B.And(G, Fv), need)}", a.line)
+            # at most once, for requests generated from flags only (valid = f(done flags)): in the cycle of the handshake the
+            # state is left or a register update turns the valid off.  Pass-through valids (a function of an upstream valid) are
+            # consumed by the upstream ready and are not judged here.
+            if not regs or not all(x in regs or x.startswith("fsm@") for x in B.atoms(Fv)):
+                continue
+            off = B.F
+            for r, asg in regs.items():
+                for a in asg:
+                    if not B.satisfiable(B.And(state_atom_of(fsm_info, st), B.subst(Fv, {r: B.T if a.v == "1" else B.F}))):
+                        off = B.Or(off, q.Inliner(fx, a).gformula(a))
+            for t in fx.trans:
+                if t.fsm == fsm_info.id and t.src == st and t.dst != st:
+                    off = B.Or(off, q.Inliner(fx, t).gformula(t))
+            hs = B.And(state_atom_of(fsm_info, st), Fv, B.A(rp))
+            ok = B.entails(hs, off)
+            n += 1
+            ctx.ob(rid, fx.rel, cls, f"{st}: {vp} & {rp} consumes the request", ok,
+                   "" if ok else f"in state {st} a handshake on `{vp}`/`{rp}` neither leaves the state nor clears the valid "
+                                 f"({short(B.show(Fv), 50)}): the same request is offered again; e.g. {B.counterexample(hs, off)}", drv[0].line)
+    return n
+
+
+def state_atom_of(info, st):
+    return q.state_atom((info.id, st))
+
+
 def fsm_sanity(ctx, rid, fx, cls):
     n = 0
     for fid, info in fx.fsms.items():
@@ -270,11 +325,16 @@ def fsm_sanity(ctx, rid, fx, cls):
     return n
 
 
+def compatible_pg(x, t):
+    return q.compatible(x.pyguards, t.pyguards)
+
+
 def fsm_txn_state(ctx, rid, fx, cls, persistent=None):
     """Per-transaction FSM state is not inherited by the next transaction.  A register that a non-reset state accumulates into
     (its new value or its guard mentions the register itself: counters, sticky error latches) or raises as a flag (constant 1)
-    is either re-initialised unconditionally in the FSM's reset state (which every new transaction starts from), or cleared
-    unconditionally in every successor state of each state that accumulates.  `persistent`: {register: reason} kept on purpose."""
+    is (i) re-initialised unconditionally in the FSM's reset state or in another state that every path from the reset state to
+    the accumulating state crosses, (ii) cleared unconditionally in every successor state of each state that accumulates, or
+    (iii) initialised on every transition that leaves the reset state.  `persistent`: {register: reason} kept on purpose."""
     persistent = persistent or {}
     n = 0
     for fid, info in fx.fsms.items():
@@ -295,12 +355,50 @@ def fsm_txn_state(ctx, rid, fx, cls, persistent=None):
             if not acc:
                 continue
             plain = lambda x: not x.guards and r not in q.paths(x.value)
-            init = [x for x in asg if x.state[1] == rs and plain(x)]
-            ok = bool(init)
-            how = f"re-initialised in {rs}"
+            acc_states = sorted({x.state[1] for x in acc})
+
+            def dominates(D, S):
+                """every path rs -> S passes through D (D != S)"""
+                if D == S:
+                    return False
+                if D == rs:
+                    return True
+                seen, todo = {rs}, [rs]
+                while todo:
+                    u = todo.pop()
+                    for v in edges.get(u, ()):
+                        if v != D and v not in seen:
+                            seen.add(v)
+                            todo.append(v)
+                return S not in seen
+            ok, how = False, ""
+            # (i)/(iv) unconditional initialisation in a state that every path from the reset state to the accumulating state crosses
+            doms = sorted({x.state[1] for x in asg if plain(x)})
+            if all(any(dominates(D, S) for D in doms) for S in acc_states):
+                ok = True
+                ds = sorted({D for S in acc_states for D in doms if dominates(D, S)})
+                how = f"re-initialised in {'/'.join(ds[:2])}"
+            # (iii) initialised on every transition that leaves the reset state
+            if not ok:
+                def reaches_acc(T):
+                    seen, todo = {T}, [T]
+                    while todo:
+                        u = todo.pop()
+                        if u in acc_states:
+                            return True
+                        for v in edges.get(u, ()):
+                            if v != rs and v not in seen:
+                                seen.add(v)
+                                todo.append(v)
+                    return False
+                outs = [t for t in fx.trans if t.fsm == fid and t.src == rs and t.dst != rs and reaches_acc(t.dst)]
+                ini = [x for x in asg if x.state[1] == rs and r not in q.paths(x.value)]
+                if outs and all(any(compatible_pg(x, t) and B.entails(B.guard_formula(t.guards), B.guard_formula(x.guards)) for x in ini) for t in outs):
+                    ok, how = True, f"initialised on every transition out of {rs} that leads there"
+            # (ii) cleared in every successor of the accumulating states
             if not ok:
                 ok = True
-                for S in sorted({x.state[1] for x in acc}):
+                for S in acc_states:
                     succ = edges.get(S, set()) - {S}
                     if not succ or not all(any(x.state[1] == T and plain(x) for x in asg) for T in succ):
                         ok = False
@@ -308,7 +406,8 @@ def fsm_txn_state(ctx, rid, fx, cls, persistent=None):
             n += 1
             ctx.ob(rid, fx.rel, cls, f"{r}: {how if ok else 're-initialised between transactions'}", ok,
                    "" if ok else f"`{r}` is accumulated in {sorted({x.state[1] for x in acc})} ({short(acc[0].v, 30)} under {short(acc[0].gtext(), 60)}) "
-                                 f"but is neither set unconditionally in the reset state {rs} nor cleared in every successor state: what one "
+                                 f"but is not set unconditionally in a state between the reset state {rs} and there, nor on every exit of {rs}, nor cleared in "
+                                 f"every successor state: what one "
                                  f"transaction left there (an error response, a count, a done flag) is inherited by the next", acc[0].line)
     return n
 
